@@ -17,6 +17,7 @@
                             stack and open blocks that were active before it was entered
 -/
 import EqlModel.Mode
+import EqlModel.Gen.Tables
 
 namespace Eql.Mode
 
@@ -200,5 +201,17 @@ theorem c08_leave_restores (s : MState) (h : Inv s) (enter : Op)
     in odd places satisfies the hypotheses and ends outside every block. -/
 example : (run {} [.enterSym .query false, .iterCreate 0, .iterAdvance 0 false, .enterSym .rule true,
     .iterAdvance 0 false, .leave, .leave, .iterClose 0]).frames = [] := by decide
+
+/-! ### Tie to the source (regenerated on every run, `Gen/Tables.lean`) -/
+
+/-- Every symbolic operator defined on `CanBehaveLikeAVariable` BEGINS with the symbolic-mode guard, and the guard raises
+    `AttributeError` outside symbolic mode: "rejected iff the mode is off" is what `Mode.observe` reports. -/
+theorem c08_operators_guarded :
+    (Gen.varOperators.all fun p => p.2) = true ∧ Gen.guardHelperRaises = true ∧ Gen.varOperators.length ≥ 10 := by decide
+
+/-- The transliterated `duringAdvance` / `afterAdvance`: the result stream is advanced inside the mode guard, results
+    are yielded OUTSIDE it, and the guard puts the previous mode back in a `finally`. -/
+theorem c08_advance_guard_tied :
+    (Gen.anAdvancesWithModeOff && Gen.anYieldsOutsideTheGuard && Gen.modeRestoredInFinally) = true := by decide
 
 end Eql.Mode
